@@ -251,8 +251,13 @@ func (e *c15Env) stall(stack string, s C15Stall, vid string) (r stallResult) {
 		}
 		t := tls.Client(tc, &tls.Config{RootCAs: e.ca.Pool, ServerName: "127.0.0.1"})
 		t.SetDeadline(time.Now().Add(5 * time.Second))
+		tHS := time.Now()
 		if err := t.Handshake(); err != nil {
 			r.setup = fmt.Errorf("listener TLS handshake: %w", err)
+			return
+		}
+		if d := time.Since(tHS); d > c15TLS/2 {
+			r.setup = fmt.Errorf("the harness needed %v for a TLS handshake (limit %v): the handshake limit may have expired meanwhile", d, c15TLS)
 			return
 		}
 		t.SetDeadline(time.Time{})
@@ -285,8 +290,13 @@ func (e *c15Env) stall(stack string, s C15Stall, vid string) (r stallResult) {
 		}
 		t := tls.Client(tc, &tls.Config{RootCAs: e.ca.Pool, ServerName: "127.0.0.3"})
 		t.SetDeadline(time.Now().Add(5 * time.Second))
+		tHS := time.Now()
 		if err := t.Handshake(); err != nil {
 			r.setup = fmt.Errorf("MITM handshake: %w", err)
+			return
+		}
+		if d := time.Since(tHS); d > c15TLS/2 {
+			r.setup = fmt.Errorf("the harness needed %v for the MITM handshake (limit %v): the handshake limit may have expired meanwhile", d, c15TLS)
 			return
 		}
 		t.SetDeadline(time.Time{})
@@ -486,7 +496,11 @@ func runC15once(c C15Case) (fails []vstat.Failure) {
 				st.Class("setup-failed-behind-stalled-peers")
 				continue
 			}
-			fails = append(fails, vstat.Failf(key("setup"), "peer %d (%+v) could not reach its stall point: %v", i, r.spec, r.setup))
+			// a peer that did not get as far as its stall point shows nothing about the clause it was meant for (a proxy
+			// that turns well-behaved peers away is seen by the bystander)
+			st.Class("setup-failed")
+			st.Inconclusive()
+			st.Note("C15: peer %d (%+v) could not reach its stall point: %v", i, r.spec, r.setup)
 			continue
 		}
 		took := r.closed.Sub(r.ref)
